@@ -6,6 +6,13 @@ import Aergo.Model.Pool
 Pool session ops (answer = `<result> | <canonical pool state>`):
   new | put a n id c | putn a n id c (sender field is a name; a = verified address) | rm a id | block new parent chain d=<a,..|-> s=<a:n:b,..|-> | evict <a,..|->
   get | exist id | size | unconf a
+Chain-side ops (harness c13chain; answer = `ok | <canonical pool state>` unless said otherwise):
+  defblock id parent chain d=<a,..|-> s=<a:n:b,..> t=<a/n/id/c/named,..|->   (defines a block; answer `ok`)
+  event old=<ids|-> new=<ids> drop=<tx ids|->   (`Pool.chainEvent`: notifications for `new` in order, then the rolled-back
+        transactions except those the front end refuses (`drop`), in ascending id order)
+  notes <ids|->                                 (notifications only)
+  bad id                                        (a submission the front end refuses: answer `rejected | <state>`)
+  existx id,..  |  listhash max  |  stats  |  txstat      (queries; answer without state)
 Bare list session ops (answer = `<result> | <list state>`):
   lnew n b | lput n id c | lfilter n b | lrm id | lget
 -/
@@ -14,6 +21,7 @@ open Aergo Aergo.DriverLib Aergo.Pool
 structure DS where
   pool : Pool
   tl : TxList
+  blocks : List Blk := []
 
 def insSorted {α} (lt : α → α → Bool) (x : α) : List α → List α
   | [] => [x]
@@ -33,7 +41,8 @@ def showList (L : TxList) : String :=
 
 def showPool (P : Pool) : String :=
   let ids := sortBy (fun (a b : Nat) => a < b) (P.cache.map (·.id))
-  let ls := sortBy (fun (a b : Nat × TxList) => a.1 < b.1) P.lists
+  -- empty lists (left by the unconfirmed report) are not part of the canonical state
+  let ls := sortBy (fun (a b : Nat × TxList) => a.1 < b.1) (P.lists.filter fun e => !e.2.list.isEmpty)
   s!"L={P.length} O={P.orphan} C={joinWith "," (ids.map toString)} | " ++
     joinWith " " (ls.map fun e => s!"a{e.1}:{showList e.2}")
 
@@ -51,6 +60,16 @@ def stateFn (l : List (Nat × Acct)) (a : Nat) : Acct :=
   match l.find? (fun e => e.1 == a) with
   | some e => e.2
   | none => ⟨0, 0⟩
+
+def parseTxs (s : String) : Option (List Tx) :=
+  if s == "-" then some [] else
+  (s.splitOn ",").mapM fun e =>
+    match e.splitOn "/" with
+    | [a, n, id, c, nm] => do pure (⟨← a.toNat?, ← n.toNat?, ← id.toNat?, ← c.toNat?, nm == "1"⟩ : Tx)
+    | _ => none
+
+def findBlocks (bs : List Blk) (ids : List Nat) : Option (List Blk) :=
+  ids.mapM fun i => bs.find? (fun b => b.id == i)
 
 def showPutRes : PutRes → String
   | .ok => "ok" | .already => "already" | .low => "low" | .insufficient => "insufficient" | .same => "samenonce"
@@ -83,6 +102,50 @@ def c13Step (s : DS) (line : String) : DS × String :=
     match parseNats o with
     | some o => let P := s.pool.evict o; ({ s with pool := P }, "ok | " ++ showPool P)
     | none => bad
+  | ["defblock", nw, par, ch, d, st, t] =>
+    match nw.toNat?, par.toNat?, ch.toNat?, (d.dropPrefix? "d=").bind (parseNats ·.toString),
+          (st.dropPrefix? "s=").bind (parseState ·.toString), (t.dropPrefix? "t=").bind (parseTxs ·.toString) with
+    | some nw, some par, some ch, some d, some st, some t =>
+      ({ s with blocks := ⟨nw, par, ch, d, stateFn st, t⟩ :: s.blocks }, "ok")
+    | _, _, _, _, _, _ => bad
+  | ["event", o, nw, dr] =>
+    match (o.dropPrefix? "old=").bind (parseNats ·.toString), (nw.dropPrefix? "new=").bind (parseNats ·.toString),
+          (dr.dropPrefix? "drop=").bind (parseNats ·.toString) with
+    | some o, some nw, some dr =>
+      match findBlocks s.blocks o, findBlocks s.blocks nw with
+      | some ob, some nb =>
+        -- the re-submissions reach the pool in map order; the harness reads the state at quiescence, the model
+        -- submits in ascending id order
+        let ob' : List Blk := [⟨0, 0, 0, [], fun _ => ⟨0, 0⟩, sortBy (fun (x y : Tx) => x.id < y.id) (ob.flatMap (·.txs))⟩]
+        let P := s.pool.chainEvent ob' nb (fun t => !dr.contains t.id)
+        ({ s with pool := P }, "ok | " ++ showPool P)
+      | _, _ => bad
+    | _, _, _ => bad
+  | ["notes", ids] =>
+    match parseNats ids with
+    | some ids =>
+      match findBlocks s.blocks ids with
+      | some bs => let P := bs.foldl Pool.notify s.pool; ({ s with pool := P }, "ok | " ++ showPool P)
+      | none => bad
+    | none => bad
+  | ["bad", id] =>
+    match id.toNat? with
+    | some _ => (s, "rejected | " ++ showPool s.pool)
+    | none => bad
+  | ["existx", ids] =>
+    match parseNats ids with
+    | some ids => (s, ",".intercalate ((s.pool.existEx ids).map fun o => match o with | some t => toString t.id | none => "0"))
+    | none => bad
+  | ["listhash", m] =>
+    match m.toNat? with
+    | some m =>
+      let ids := sortBy (fun (a b : Nat) => a < b) s.pool.offeredIds
+      (s, if ids.length ≤ m then s!"all {joinWith "," (ids.map toString)} more=false" else s!"{m} more=true")
+    | none => bad
+  | ["stats"] => (s, s!"{s.pool.length} {s.pool.orphan}")
+  | ["txstat"] =>
+    let l := sortBy (fun (a b : Nat × Nat × Nat) => a.1 < b.1) (s.pool.txStat.filter fun e => e.2.1 + e.2.2 != 0)
+    (s, joinWith " " (l.map fun e => s!"a{e.1}:{e.2.1}:{e.2.2}"))
   | ["get"] =>
     let g := sortBy (fun (a b : Nat × List Tx) => a.1 < b.1) (s.pool.get.filter (fun e => !e.2.isEmpty))
     (s, joinWith " " (g.map fun e => s!"a{e.1}:" ++ joinWith "," (e.2.map fun t => s!"{t.nonce}/{t.id}")))
@@ -126,4 +189,4 @@ def c13Step (s : DS) (line : String) : DS × String :=
   | ["lget"] => (s, joinWith "," (s.tl.get.map fun t => s!"{t.nonce}/{t.id}"))
   | _ => bad
 
-def main : IO UInt32 := run (⟨Pool.init, ⟨⟨0, 0⟩, [], 0⟩⟩ : DS) c13Step
+def main : IO UInt32 := run (⟨Pool.init, ⟨⟨0, 0⟩, [], 0⟩, []⟩ : DS) c13Step
